@@ -78,6 +78,21 @@ class Scenario:
         self.invariants = list(invariants) if invariants is not None else list(ALL_INVARIANTS)
         self.properties = list(properties) if properties is not None else list(ALL_PROPERTIES)
         self.walk, self.reps, self.trace, self.workers = walk, reps, trace, workers
+        # which observers / state components / consistency topics the check compares (None = all)
+        self.obs_fields = self.state_fields = self.topics = None
+        self.check_valid = True
+
+    def scope_plan(self):
+        p = {}
+        if self.obs_fields is not None:
+            p["obs_fields"] = list(self.obs_fields)
+        if self.state_fields is not None:
+            p["state_fields"] = list(self.state_fields)
+        if self.topics is not None:
+            p["topics"] = list(self.topics)
+        if not self.check_valid:
+            p["check_valid"] = False
+        return p
 
     def constants(self, emit):
         return {
@@ -121,6 +136,8 @@ def run_mc_walk(pid, scn, gh_exe, timeout=3600, heap="6g"):
         plan = {"group": scn.group, "reps": scn.reps, "replay_dir": vf.REPLAYS,
                 "tag": "%s-%s-walk" % (pid, scn.name), "crash_note": os.path.join(d, "crash.json"), "max_fail": 3,
                 "init_n": getattr(scn, "initn", 0)}
+        if hasattr(scn, "scope_plan"):
+            plan.update(scn.scope_plan())
         planf = os.path.join(d, "plan.json")
         with open(planf, "w") as f:
             json.dump(plan, f)
@@ -198,6 +215,8 @@ def record_traces(pid, scn, gh_exe, seed, histories, steps, nmax, families=None,
                 "max_copies": max(scn.maxcopies, 1), "crash_note": os.path.join(d, "crash%d.json" % fam),
                 # multigraph family 1 counts in units of 2^30: a multiplicity above 3 units does not fit 32 bits
                 "mult_cap": 3 if (scn.kind == "multi" and fam % 2) else 0}
+        plan.update(scn.scope_plan())
+        plan.pop("check_valid", None)
         planf = os.path.join(d, "plan%d.json" % fam)
         with open(planf, "w") as f:
             json.dump(plan, f)
@@ -225,6 +244,7 @@ def validate_trace(pid, scn, trace_path, check_obs=True, timeout=1800, tag="v"):
     consts["MaxCopies"] = "= 1000"
     consts["MaxMult"] = "= 1000000"
     consts["CheckObs"] = "= " + ("TRUE" if check_obs else "FALSE")
+    consts["ObsFields"] = "= " + vf.tla_set(scn.obs_fields if scn.obs_fields is not None else [])
     cfg = vf.write_cfg(os.path.join(d, "MachineTrace.cfg"), consts, init="TInit", nxt="TNext",
                        invariants=(scn.invariants if check_obs else []), properties=[],
                        postcondition=("TraceAccepted" if check_obs else None))
